@@ -150,6 +150,213 @@ theorem scalar_product_spec (axes : List (Int × Int × Int)) (coords : List Int
     simp only [one_mul, zero_add] at this
     exact this
 
+/-! ### monotonicity -/
+
+/-- the loop is monotone in the scalar it starts from (every step multiplies by a fixed
+non-negative factor and rounds). -/
+theorem scalarGo_mono_start (axes : List (Int × Int × Int)) :
+    ∀ (coords : List Int) (sc sc' : Int), AxesOk axes → CoordsOk coords → 0 ≤ sc → sc ≤ sc' →
+      sc' ≤ 65536 → computeScalarGo sc axes coords ≤ computeScalarGo sc' axes coords := by
+  induction axes with
+  | nil => intro coords sc sc' _ _ _ h _; simpa [computeScalarGo] using h
+  | cons a rest ih =>
+    intro coords sc sc' ha hc h0 hle h1
+    obtain ⟨s, p, e⟩ := a
+    have hh := ha (s, p, e) (by simp)
+    have hrest : AxesOk rest := fun x hx => ha x (by simp [hx])
+    have hct := coordsOk_tail hc
+    have hcF := inF_of_f2dot14 (coordsOk_head hc)
+    have hsF := inF_of_f2dot14 hh.1
+    have hpF := inF_of_f2dot14 hh.2.1
+    have heF := inF_of_f2dot14 hh.2.2
+    simp only [computeScalarGo]
+    generalize Fixed.f2dot14ToFixed (coords.headD 0) = C at *
+    generalize Fixed.f2dot14ToFixed s = S at *
+    generalize Fixed.f2dot14ToFixed p = P at *
+    generalize Fixed.f2dot14ToFixed e = E at *
+    rcases axisStep_cases sc C S P E hcF hsF hpF heF h0 (by omega) with h | h | h | h | h <;>
+    rcases axisStep_cases sc' C S P E hcF hsF hpF heF (by omega) h1 with h' | h' | h' | h' | h'
+    all_goals first
+      | (exfalso; have a1 := h.1; have a2 := h'.1; contradiction)
+      | (exfalso; have a1 := h.1; have a2 := h'.1; unfold Ignored at *; omega)
+      | skip
+    -- same branch on both sides
+    · rw [h.2, h'.2]; exact ih coords.tail sc sc' hrest hct h0 hle h1
+    · rw [h.2.2, h'.2.2]
+    · rw [h.2.2, h'.2.2]; exact ih coords.tail sc sc' hrest hct h0 hle h1
+    · -- rising leg
+      rw [h.2.2.2, h'.2.2.2]
+      have hd : 0 < P - S := by have := h.2.1; have := h.2.2.1; omega
+      have hn : 0 ≤ C - S := by have := h.2.1; omega
+      have hq : (sc * (C - S) + (P - S) / 2) / (P - S) ≤ (sc' * (C - S) + (P - S) / 2) / (P - S) :=
+        Int.ediv_le_ediv hd (by nlinarith)
+      obtain ⟨r, hr, _, hr0, hr1⟩ := step_spec_up sc C S P E hcF hsF hpF heF h0 (by omega) h.1 h.2.1 h.2.2.1
+      obtain ⟨r', hr', _, hr0', hr1'⟩ := step_spec_up sc' C S P E hcF hsF hpF heF (by omega) h1 h'.1 h'.2.1 h'.2.2.1
+      rw [h.2.2.2] at hr; rw [h'.2.2.2] at hr'
+      cases hr; cases hr'
+      exact ih coords.tail _ _ hrest hct hr0 hq (by omega)
+    · -- falling leg
+      rw [h.2.2.2, h'.2.2.2]
+      have hd : 0 < E - P := by have := h.2.1; have := h.2.2.1; omega
+      have hn : 0 ≤ E - C := by have := h.2.2.1; omega
+      have hq : (sc * (E - C) + (E - P) / 2) / (E - P) ≤ (sc' * (E - C) + (E - P) / 2) / (E - P) :=
+        Int.ediv_le_ediv hd (by nlinarith)
+      obtain ⟨r, hr, _, hr0, hr1⟩ := step_spec_down sc C S P E hcF hsF hpF heF h0 (by omega) h.1 h.2.1 h.2.2.1
+      obtain ⟨r', hr', _, hr0', hr1'⟩ := step_spec_down sc' C S P E hcF hsF hpF heF (by omega) h1 h'.1 h'.2.1 h'.2.2.1
+      rw [h.2.2.2] at hr; rw [h'.2.2.2] at hr'
+      cases hr; cases hr'
+      exact ih coords.tail _ _ hrest hct hr0 hq (by omega)
+
+theorem coordsOk_set {coords : List Int} (h : CoordsOk coords) (i : Nat) {c : Int} (hc : inI16 c) :
+    CoordsOk (coords.set i c) := by
+  intro x hx
+  rcases List.mem_or_eq_of_mem_set hx with h1 | h1
+  · exact h x h1
+  · rw [h1]; exact hc
+
+theorem scalarGo_mono_coord (axes : List (Int × Int × Int)) :
+    ∀ (i : Nat) (coords : List Int) (sc : Int) (a : Int × Int × Int) (c2 : Int), AxesOk axes →
+      CoordsOk coords → inI16 c2 → 0 ≤ sc → sc ≤ 65536 → axes[i]? = some a → i < coords.length →
+      ¬ Ignored a.1 a.2.1 a.2.2 → coords.getD i 0 ≤ c2 →
+      (a.1 ≤ coords.getD i 0 → c2 ≤ a.2.1 →
+        computeScalarGo sc axes coords ≤ computeScalarGo sc axes (coords.set i c2)) ∧
+      (a.2.1 ≤ coords.getD i 0 → c2 ≤ a.2.2 →
+        computeScalarGo sc axes (coords.set i c2) ≤ computeScalarGo sc axes coords) := by
+  induction axes with
+  | nil => intro i coords sc a c2 _ _ _ _ _ h; simp at h
+  | cons b rest ih =>
+    intro i coords sc a c2 ha hc hc2 h0 h1 hget hi hni hle
+    obtain ⟨s, p, e⟩ := b
+    have hh := ha (s, p, e) (by simp)
+    have hrest : AxesOk rest := fun x hx => ha x (by simp [hx])
+    cases coords with
+    | nil => simp at hi
+    | cons c1 tl =>
+      have hc1 : inI16 c1 := hc c1 (by simp)
+      have htl : CoordsOk tl := fun x hx => hc x (by simp [hx])
+      have hsF := inF_of_f2dot14 hh.1
+      have hpF := inF_of_f2dot14 hh.2.1
+      have heF := inF_of_f2dot14 hh.2.2
+      cases i with
+      | zero =>
+        simp at hget; subst hget
+        simp only [List.getD_cons_zero] at hle ⊢
+        simp only [List.set_cons_zero, computeScalarGo, List.headD_cons, List.tail_cons]
+        have hni' : ¬ Ignored (Fixed.f2dot14ToFixed s) (Fixed.f2dot14ToFixed p) (Fixed.f2dot14ToFixed e) :=
+          fun h => hni ((ignored_scale s p e).mp h)
+        have hC1 := inF_of_f2dot14 hc1
+        have hC2 := inF_of_f2dot14 hc2
+        have hCle : Fixed.f2dot14ToFixed c1 ≤ Fixed.f2dot14ToFixed c2 := by
+          unfold Fixed.f2dot14ToFixed; omega
+        have hA : s ≤ c1 → Fixed.f2dot14ToFixed s ≤ Fixed.f2dot14ToFixed c1 := by
+          unfold Fixed.f2dot14ToFixed; omega
+        have hB : c2 ≤ p → Fixed.f2dot14ToFixed c2 ≤ Fixed.f2dot14ToFixed p := by
+          unfold Fixed.f2dot14ToFixed; omega
+        have hC : p ≤ c1 → Fixed.f2dot14ToFixed p ≤ Fixed.f2dot14ToFixed c1 := by
+          unfold Fixed.f2dot14ToFixed; omega
+        have hD : c2 ≤ e → Fixed.f2dot14ToFixed c2 ≤ Fixed.f2dot14ToFixed e := by
+          unfold Fixed.f2dot14ToFixed; omega
+        generalize Fixed.f2dot14ToFixed c1 = C1 at *
+        generalize Fixed.f2dot14ToFixed c2 = C2 at *
+        generalize Fixed.f2dot14ToFixed s = S at *
+        generalize Fixed.f2dot14ToFixed p = P at *
+        generalize Fixed.f2dot14ToFixed e = E at *
+        constructor
+        · intro hs1 hp2
+          have hs1' : S ≤ C1 := hA hs1
+          have hp2' : C2 ≤ P := hB hp2
+          by_cases heq : C1 = C2
+          · subst heq; exact Int.le_refl _
+          · have hlt : C1 < P := by omega
+            obtain ⟨r1, hr1, _, hr10, hr11⟩ := step_spec_up sc C1 S P E hC1 hsF hpF heF h0 h1 hni' hs1' hlt
+            rcases axisStep_cases sc C1 S P E hC1 hsF hpF heF h0 h1 with g | g | g | g | g
+            · exact absurd g.1 hni'
+            · have := g.2.1; unfold Ignored at hni'; omega
+            · have := g.2.1; omega
+            · rw [g.2.2.2] at hr1 ⊢; cases hr1
+              by_cases hpk : C2 = P
+              · have hstep2 : axisStep sc C2 S P E = some sc := by
+                  rcases axisStep_cases sc C2 S P E hC2 hsF hpF heF h0 h1 with g2 | g2 | g2 | g2 | g2
+                  · exact absurd g2.1 hni'
+                  · have := g2.2.1; unfold Ignored at hni'; omega
+                  · exact g2.2.2
+                  · have := g2.2.2.1; omega
+                  · have := g2.2.1; omega
+                rw [hstep2]
+                exact scalarGo_mono_start rest tl _ sc hrest htl hr10 hr11 h1
+              · rcases axisStep_cases sc C2 S P E hC2 hsF hpF heF h0 h1 with g2 | g2 | g2 | g2 | g2
+                · exact absurd g2.1 hni'
+                · have := g2.2.1; unfold Ignored at hni'; omega
+                · exact absurd g2.2.1 hpk
+                · rw [g2.2.2.2]
+                  have hd : 0 < P - S := by omega
+                  have hq : (sc * (C1 - S) + (P - S) / 2) / (P - S) ≤ (sc * (C2 - S) + (P - S) / 2) / (P - S) :=
+                    Int.ediv_le_ediv hd (by nlinarith)
+                  obtain ⟨r2, hr2, _, hr20, hr21⟩ := step_spec_up sc C2 S P E hC2 hsF hpF heF h0 h1 hni' (by omega) (by omega)
+                  rw [g2.2.2.2] at hr2; cases hr2
+                  exact scalarGo_mono_start rest tl _ _ hrest htl hr10 hq (by omega)
+                · have := g2.2.1; omega
+            · have := g.2.1; omega
+        · intro hp1 he2
+          have hp1' : P ≤ C1 := hC hp1
+          have he2' : C2 ≤ E := hD he2
+          by_cases heq : C1 = C2
+          · subst heq; exact Int.le_refl _
+          · have hgt : P < C2 := by omega
+            obtain ⟨r2, hr2, _, hr20, hr21⟩ := step_spec_down sc C2 S P E hC2 hsF hpF heF h0 h1 hni' hgt he2'
+            rcases axisStep_cases sc C2 S P E hC2 hsF hpF heF h0 h1 with g | g | g | g | g
+            · exact absurd g.1 hni'
+            · have := g.2.1; unfold Ignored at hni'; omega
+            · have := g.2.1; omega
+            · have := g.2.2.1; omega
+            · rw [g.2.2.2] at hr2 ⊢; cases hr2
+              by_cases hpk : C1 = P
+              · have hstep1 : axisStep sc C1 S P E = some sc := by
+                  rcases axisStep_cases sc C1 S P E hC1 hsF hpF heF h0 h1 with g1 | g1 | g1 | g1 | g1
+                  · exact absurd g1.1 hni'
+                  · have := g1.2.1; unfold Ignored at hni'; omega
+                  · exact g1.2.2
+                  · have := g1.2.2.1; omega
+                  · have := g1.2.1; omega
+                rw [hstep1]
+                exact scalarGo_mono_start rest tl _ sc hrest htl hr20 hr21 h1
+              · rcases axisStep_cases sc C1 S P E hC1 hsF hpF heF h0 h1 with g1 | g1 | g1 | g1 | g1
+                · exact absurd g1.1 hni'
+                · have := g1.2.1; unfold Ignored at hni'; omega
+                · exact absurd g1.2.1 hpk
+                · have := g1.2.2.1; omega
+                · rw [g1.2.2.2]
+                  have hd : 0 < E - P := by omega
+                  have hq : (sc * (E - C2) + (E - P) / 2) / (E - P) ≤ (sc * (E - C1) + (E - P) / 2) / (E - P) :=
+                    Int.ediv_le_ediv hd (by nlinarith)
+                  obtain ⟨r1, hr1, _, hr10, hr11⟩ := step_spec_down sc C1 S P E hC1 hsF hpF heF h0 h1 hni' (by omega) (by omega)
+                  rw [g1.2.2.2] at hr1; cases hr1
+                  exact scalarGo_mono_start rest tl _ _ hrest htl hr20 hq (by omega)
+      | succ j =>
+        simp only [List.getElem?_cons_succ] at hget
+        simp only [List.getD_cons_succ] at hle ⊢
+        simp only [List.set_cons_succ, computeScalarGo, List.headD_cons, List.tail_cons]
+        have hj : j < tl.length := by simpa using hi
+        cases hstep : axisStep sc (Fixed.f2dot14ToFixed c1) (Fixed.f2dot14ToFixed s)
+            (Fixed.f2dot14ToFixed p) (Fixed.f2dot14ToFixed e) with
+        | none => exact ⟨fun _ _ => Int.le_refl 0, fun _ _ => Int.le_refl 0⟩
+        | some sc' =>
+          have hr := axisStep_range sc _ _ _ _ (inF_of_f2dot14 hc1) hsF hpF heF h0 h1 sc' hstep
+          exact ih j tl sc' a c2 hrest htl hc2 hr.1 (by omega) hget hj hni hle
+
+/-- **scalar_monotone_on_leg**: moving one coordinate towards the peak of its (used) axis, all
+other coordinates fixed, never decreases the scalar — rising leg `start ≤ c ≤ c' ≤ peak` and,
+symmetrically, falling leg `peak ≤ c ≤ c' ≤ end` never increases it; for any number of axes. -/
+theorem scalar_monotone_on_leg (axes : List (Int × Int × Int)) (coords : List Int) (i : Nat)
+    (a : Int × Int × Int) (c2 : Int) (ha : AxesOk axes) (hc : CoordsOk coords) (hc2 : inI16 c2)
+    (hget : axes[i]? = some a) (hi : i < coords.length) (hni : ¬ Ignored a.1 a.2.1 a.2.2)
+    (hle : coords.getD i 0 ≤ c2) :
+    (a.1 ≤ coords.getD i 0 → c2 ≤ a.2.1 →
+      computeScalar axes coords ≤ computeScalar axes (coords.set i c2)) ∧
+    (a.2.1 ≤ coords.getD i 0 → c2 ≤ a.2.2 →
+      computeScalar axes (coords.set i c2) ≤ computeScalar axes coords) :=
+  scalarGo_mono_coord axes i coords 65536 a c2 ha hc hc2 (by omega) (by omega) hget hi hni hle
+
 example : tentFactors [(0, 16384, 16384), (-16384, -8192, 0)] [4096, -4096] =
     some [(16384, 65536), (16384, 32768)] := by decide
 example : computeScalar [(0, 16384, 16384), (-16384, -8192, 0)] [4096, -4096] = 8192 := by decide
